@@ -19,7 +19,7 @@ from props import wirelib as W
 COQ_FILES = ["Ban/Model.v", "Ban/Proofs.v", "Ban/Tie.v", "Ban/Props.v"]
 PREAMBLE = ("From PV Require Import Ban.Model Ban.Tie.\nFrom Coq Require Import ZArith List. Import ListNotations.\n"
             "Open Scope Z_scope.")
-CONNECT_TO, HC_TO, STMT_TO, BAN_TIME = 300, 200, 300, 1
+CONNECT_TO, HC_TO, STMT_TO = 300, 200, 300
 FINDINGS = {
     "F10-unguarded-server-awaits": "server-facing awaits of a client task without any timeout: Server::sync_parameters (client.rs:1160), Server::checkin_cleanup "
                                    "(client.rs:1194/1304/1621) and Server::register_prepared_statement (client.rs:1803) call Server::query/recv with no bound; a server that "
@@ -34,8 +34,8 @@ class Topo:
     """shards: list of lists of roles ('P' / 'R').  Address ids count up in configuration order
     (as pool.rs address_id does for a single pool); host = 127.0.0.(10+id)."""
 
-    def __init__(self, shards, lb="random", hc=True, default_role="any", pool_size=2):
-        self.shards, self.lb, self.hc, self.default_role, self.pool_size = shards, lb, hc, default_role, pool_size
+    def __init__(self, shards, lb="random", hc=True, default_role="any", pool_size=2, ban_time=60):
+        self.shards, self.lb, self.hc, self.default_role, self.pool_size, self.ban_time = shards, lb, hc, default_role, pool_size, ban_time
         self.addrs = []
         for s, roles in enumerate(shards):
             nr = 0
@@ -50,7 +50,7 @@ class Topo:
         return ("/".join("".join(s) for s in self.shards), self.lb, self.hc, self.default_role)
 
     def toml(self):
-        general = {"connect_timeout": CONNECT_TO, "healthcheck_timeout": HC_TO, "healthcheck_delay": 0 if self.hc else 600000, "ban_time": BAN_TIME}
+        general = {"connect_timeout": CONNECT_TO, "healthcheck_timeout": HC_TO, "healthcheck_delay": 0 if self.hc else 600000, "ban_time": self.ban_time}
         opts = {"default_role": self.default_role, "load_balancing_mode": "loc" if self.lb == "loc" else "random"}
         sh = []
         for s, roles in enumerate(self.shards):
@@ -64,7 +64,7 @@ class Topo:
         return "(mkAddr %d %d %s %d)" % (a["id"], a["shard"], "Primary" if a["role"] == "P" else "Replica", a["hostn"])
 
     def coq_cfg(self):
-        return "(mkCfg [%s] %d %d (DShard 0))" % ("; ".join(self.coq_addr(a) for a in self.addrs), len(self.shards), BAN_TIME)
+        return "(mkCfg [%s] %d %d (DShard 0))" % ("; ".join(self.coq_addr(a) for a in self.addrs), len(self.shards), self.ban_time)
 
     def candidates(self, role, shard):
         sh = 0 if len(self.shards) == 1 else (shard if shard is not None else 0)
@@ -248,9 +248,21 @@ def observe_txn(topo, s, w):
             "pre": pool_bans(w["pre"]), "post": pool_bans(w["post"]), "t0": w["pre"]["unix_ms"], "t1": w["post"]["unix_ms"]}
 
 
-def norm_bl(entries, pre_set):
-    """entries: iterable of (id, reason, ts)"""
-    return frozenset((i, r, ts) if (i, r, ts) in pre_set else (i, r, "new") for (i, r, ts) in entries)
+def bl_match(model_bl, obs_bl, nows, t0s, t1s):
+    """model_bl / obs_bl: lists of (id, reason, ts).  Same keys and reasons; time stamps equal, or the
+    model's stamp is one of this step's clock readings (a ban made in this step) and the observed one
+    lies within the step (a checkout reads the clock once per ban, possibly in different seconds)."""
+    m = {i: (r, ts) for (i, r, ts) in model_bl}
+    o = {i: (r, ts) for (i, r, ts) in obs_bl}
+    if set(m) != set(o) or len(m) != len(model_bl):
+        return False
+    for i, (r, ts) in m.items():
+        ro, tso = o[i]
+        if r != ro:
+            return False
+        if not (ts == tso or (ts in nows and t0s <= tso <= t1s)):
+            return False
+    return True
 
 
 def reason_str(r):
@@ -272,13 +284,16 @@ def parse_obs_list(v):
     return out
 
 
-def match_txn(topo, s, ob, modes, allowed):
+def match_txn(topo, s, ob, modes, allowed, nows):
     """Is the observation one the model allows?  Returns (ok, reason-text)."""
-    pre_set = {(topo.by_host[b["host"]]["id"], b["reason"], b["ts"]) for b in ob["pre"]}
-    post = norm_bl([(topo.by_host[b["host"]]["id"], b["reason"], b["ts"]) for b in ob["post"]], pre_set)
+    post = [(topo.by_host[b["host"]]["id"], b["reason"], b["ts"]) for b in ob["post"]]
     name_of = {a["id"]: a["name"] for a in topo.addrs}
     busy = set(s.get("busy", []))
     kind = ob["kind"]
+    t0s, t1s = ob["t0"] // 1000, ob["t1"] // 1000
+    # a contact leaves no trace at the mock when it refuses connections (down), when the connection
+    # attempt was already pending before the step (hang_startup) or when bb8 only waited for a slot (busy)
+    optional = lambda n: modes[n] in ("down", "hang_startup") or n in busy
     why = []
     for (res, ct, bl, hcs) in allowed:
         if kind in ("ok", "ok_err"):
@@ -293,21 +308,20 @@ def match_txn(topo, s, ob, modes, allowed):
                 why.append("result"); continue
         else:
             why.append("kind"); continue
-        if norm_bl(bl, pre_set) != post:
+        if not bl_match(bl, post, nows, t0s, t1s):
             why.append("banlist"); continue
-        vis = [(name_of[i], h) for i, h in zip(ct, hcs) if modes[name_of[i]] != "down" and not (name_of[i] in busy)]
-        obs_vis = [n for n in ob["contacts"] if modes[n] != "down" and n not in busy]
-        if [n for n, _ in vis] != obs_vis:
+        vis = [(name_of[i], h) for i, h in zip(ct, hcs) if not (optional(name_of[i]) and name_of[i] not in ob["contacts"])]
+        if [n for n, _ in vis] != ob["contacts"]:
             why.append("contacts"); continue
-        if any(bool(ob["hc"].get(n)) != h for n, h in vis):
+        if any(bool(ob["hc"].get(n)) != h for n, h in vis if modes[n] != "down"):
             why.append("healthcheck"); continue
         return True, ""
     return False, ",".join(sorted(set(why)))
 
 
 # ----------------------------------------------------------------------------- monitors (no model)
-def expired_possible(b, t0, t1):
-    d = int(b["reason"][9:-1]) if b["reason"].startswith("AdminBan(") else BAN_TIME
+def expired_possible(b, t0, t1, ban_time):
+    d = int(b["reason"][9:-1]) if b["reason"].startswith("AdminBan(") else ban_time
     return (t1 // 1000) - b["ts"] > d, (t0 // 1000) - b["ts"] > d      # (may be expired, surely expired)
 
 
@@ -328,16 +342,19 @@ def monitors(topo, s, ob, modes):
         n = a["name"]
         if not healthy(modes[n]) or n in s.get("busy", []):
             continue
-        if a["role"] == "P" or n not in pre or expired_possible(pre[n], ob["t0"], ob["t1"])[1]:
+        if a["role"] == "P" or n not in pre or expired_possible(pre[n], ob["t0"], ob["t1"], topo.ban_time)[1]:
             usable.append(n)
-    if usable and ob["kind"] not in ("ok", "ok_err"):
-        bad.append("candidate(s) %s usable (healthy and not under an unexpired ban) but the client saw %s %s" % (usable, ob["kind"], ob["arg"]))
+    # (a statement that then fails on a broken server the checkout handed out is the other sentence of the property)
+    if usable and ob["kind"] in ("refused", "closed_silent", "other_error"):
+        bad.append("candidate(s) %s usable (healthy and not under an unexpired ban) but the transaction was refused: %s %s" % (usable, ob["kind"], ob["arg"]))
+    if ob["kind"] == "exec" and ob["stmt_at"] and healthy(modes[ob["stmt_at"]]):
+        bad.append("the statement failed (%s) on %s which is healthy" % (ob["arg"], ob["stmt_at"]))
     if ob["kind"] == "ok" and not healthy(modes[ob["arg"]]) and modes[ob["arg"]] != "hang_startup":
         bad.append("served by %s which is in mode %s" % (ob["arg"], modes[ob["arg"]]))
     # bypass: banned, surely unexpired, another replica of the shard unbanned + healthy => not contacted
     for a in cands:
         n = a["name"]
-        if a["role"] != "R" or n not in pre or expired_possible(pre[n], ob["t0"], ob["t1"])[0]:
+        if a["role"] != "R" or n not in pre or expired_possible(pre[n], ob["t0"], ob["t1"], topo.ban_time)[0]:
             continue
         others = [x for x in topo.addrs if x["shard"] == a["shard"] and x["role"] == "R" and x["name"] != n and x["name"] not in pre
                   and healthy(modes[x["name"]]) and x["name"] not in s.get("busy", [])]
@@ -346,7 +363,7 @@ def monitors(topo, s, ob, modes):
     lat = ob["t1"] - ob["t0"]
     bound = 3 * (len(cands) * max(CONNECT_TO, HC_TO) + STMT_TO) + 1000
     if ob["kind"] != "blocked" and lat > bound:
-        bad.append("transaction took %d ms > %d ms (3 x configured timeouts + 1 s)" % (lat, bound))
+        bad.append("LATENCY transaction took %d ms > %d ms (3 x configured timeouts + 1 s)" % (lat, bound))
     return bad
 
 
@@ -383,7 +400,7 @@ def random_schedule(rng, topo, nsteps):
             b = rng.choice(reps if (reps and rng.random() < 0.8) else names)
             hl.append({"op": "mode", "b": b, "mode": rng.choice(fault_modes)})
         elif x < 0.30 and names:
-            hl.append({"op": "ban", "b": rng.choice(names), "secs": rng.choice([1, 1, 2, 30])})
+            hl.append({"op": "ban", "b": rng.choice(names), "secs": rng.choice([30, 60, 600])})
         elif x < 0.35 and names:
             hl.append({"op": "unban", "b": rng.choice(names)})
         elif x < 0.39:
@@ -436,19 +453,19 @@ def scripted(quick):
                 [{"op": "ban", "b": "r1", "secs": 30}] + [{"op": "txn", "role": "any"} for _ in range(4)], None))
     # expiry with real time: ban_time 1 => still banned within the same/next second, free after 2.2 s
     for mode in ("down", "hang"):
-        t = Topo([["P", "R", "R"]], hc=True)
+        t = Topo([["P", "R", "R"]], hc=True, ban_time=1)
         hl = [{"op": "mode", "b": "r1", "mode": mode}] + [{"op": "txn", "role": "replica"} for _ in range(4)] + \
              [{"op": "mode", "b": "r1", "mode": "normal"}] + [{"op": "txn", "role": "replica"} for _ in range(2)] + \
              [{"op": "sleep", "ms": 2200}] + [{"op": "txn", "role": "replica"} for _ in range(5)]
         out.append(("expiry-%s" % mode, t, hl, None))
     # strictness of '>' on whole seconds: admin BAN 1 at x.85, look again at (x+1).15 => age 1, not > 1
     for rep in range(2 if quick else 6):
-        t = Topo([["P", "R", "R"]], hc=True, lb=("random", "loc")[rep % 2])
+        t = Topo([["P", "R", "R"]], hc=True, lb=("random", "loc")[rep % 2], ban_time=1)
         hl = [{"op": "sleep_frac", "ms": 850}, {"op": "ban", "b": "r1", "secs": 1}, {"op": "sleep_frac", "ms": 150}] + \
              [{"op": "txn", "role": "replica"} for _ in range(8)] + [{"op": "showbans"}, {"op": "sleep", "ms": 1100}] + [{"op": "txn", "role": "replica"} for _ in range(6)]
         out.append(("strict-gt-%d" % rep, t, hl, None))
     # admin durations: BAN 2 survives ban_time=1
-    t = Topo([["P", "R", "R"]], hc=True)
+    t = Topo([["P", "R", "R"]], hc=True, ban_time=1)
     hl = [{"op": "ban", "b": "r2", "secs": 3}, {"op": "showbans"}] + [{"op": "txn", "role": "replica"} for _ in range(3)] + [{"op": "sleep", "ms": 2200}] + \
          [{"op": "txn", "role": "replica"} for _ in range(4)] + [{"op": "sleep", "ms": 2000}] + [{"op": "txn", "role": "replica"} for _ in range(5)]
     out.append(("admin-duration", t, hl, None))
@@ -488,8 +505,8 @@ def probes_unguarded():
     out.append(("site-healthcheck", t, [{"op": "mode", "b": "r0", "mode": "hang"}, {"op": "txn", "role": "replica", "wait": 2500, "site": "SHealthCheck", "expect": "bounded"}], None))
     t = Topo([["R"]], hc=False)
     out.append(("site-relay-recv", t, [{"op": "mode", "b": "r0", "mode": "hang"}, {"op": "txn", "role": "replica", "wait": 2500, "site": "SRelayRecv", "expect": "bounded"}], None))
-    t = Topo([["R"]], hc=False)
-    out.append(("site-checkout", t, [{"op": "txn", "role": "replica", "wait": 2500, "site": "SCheckout", "expect": "bounded"}], {"r0": "hang_startup"}))
+    t = Topo([["P", "R"]], hc=False)
+    out.append(("site-checkout", t, [{"op": "txn", "role": "replica", "wait": 2500, "site": "SCheckout", "expect": "bounded"}], {"r1": "hang_startup"}))
     # sync_parameters: the SET batch sent at checkout is swallowed (client application_name differs from the server's)
     t = Topo([["R"]], hc=False)
     out.append(("site-sync-parameters", t, [{"op": "hang_match", "b": "r0", "text": "SET application_name"},
@@ -536,6 +553,7 @@ def run_and_check(run, wire, cases, stats, label):
                     opts = "[" + "; ".join("(%s, [%s])" % (topo.coq_addr(a), "; ".join(outcome_options(m[a["name"]], a["name"] in s.get("busy", [])))) for a in cands) + "]"
                     nows = sorted(set([ob["t0"] // 1000, ob["t1"] // 1000] + list(range(ob["t0"] // 1000, ob["t1"] // 1000 + 1))))
                     ek = "(Some %s)" % ob["arg"] if ob["kind"] == "exec" else "None"
+                    st["nows"] = nows
                     exprs.append("tie_txn %s %s %s %s %s [%s] %s" % (topo.coq_cfg(), coq_bl(topo, ob["pre"]), req, shard, opts, "; ".join(str(n) for n in nows), ek))
                     where.append((ci, len(info["steps"]) - 1))
             else:
@@ -564,7 +582,7 @@ def run_and_check(run, wire, cases, stats, label):
         prev_post = None
         for si, st in enumerate(info["steps"]):
             s = st["s"]
-            replay = {"case": cid, "topology": {"shards": topo.shards, "lb": topo.lb, "healthcheck": topo.hc, "default_role": topo.default_role, "pool_size": topo.pool_size},
+            replay = {"case": cid, "topology": {"shards": topo.shards, "lb": topo.lb, "healthcheck": topo.hc, "default_role": topo.default_role, "pool_size": topo.pool_size, "ban_time": topo.ban_time},
                       "schedule": [{k: v for k, v in x.items() if k != "k"} for x in hl], "initial_modes": init, "step": s["k"]}
             pre = st["pre"] if st.get("admin") else st["ob"]["pre"]
             post = st["post"] if st.get("admin") else st["ob"]["post"]
@@ -607,7 +625,7 @@ def run_and_check(run, wire, cases, stats, label):
             stats["allowed_sizes"].append(len(allowed))
             if len(allowed) > 1:
                 stats["set_valued"] += 1
-            okm, why = match_txn(topo, s, ob, st["modes"], allowed)
+            okm, why = match_txn(topo, s, ob, st["modes"], allowed, st["nows"])
             stats["validated"] += 1
             if ob["kind"] == "ok" and any(b["host"] not in [x["host"] for x in ob["post"]] for b in ob["pre"]):
                 stats["unban_events"] += 1
@@ -637,8 +655,8 @@ def check_admin(run, topo, st, mv, replay, stats):
     s = st["s"]
     rows = [f["cols"] for f in st["frames"] if f.get("t") == "D"]
     errs = [(f.get("fields") or {}).get("M", "") for f in st["frames"] if f.get("t") == "E"]
-    pre_set = {(topo.by_host[b["host"]]["id"], b["reason"], b["ts"]) for b in st["pre"]}
-    post = norm_bl([(topo.by_host[b["host"]]["id"], b["reason"], b["ts"]) for b in st["post"]], pre_set)
+    post = [(topo.by_host[b["host"]]["id"], b["reason"], b["ts"]) for b in st["post"]]
+    t0s, t1s = st["t0"] // 1000, st["t1"] // 1000
     stats["admin_steps"] += 1
     if s["op"] in ("ban", "unban"):
         stats["evaluations"] += 1
@@ -646,7 +664,7 @@ def check_admin(run, topo, st, mv, replay, stats):
         ok = False
         for e, v in mv:
             bl = [(i, reason_str(r), ts) for (i, r, ts) in vlib.parse_coq(v)]
-            if norm_bl(bl, pre_set) == post:
+            if bl_match(bl, post, [t0s, t1s], t0s, t1s):
                 ok = True
         stats["distinct"].add((topo.key(), s["op"], topo.by_name[s["b"]]["role"], s.get("secs"), tuple(sorted(b["host"] for b in st["pre"]))))
         if not ok:
@@ -661,7 +679,7 @@ def check_admin(run, topo, st, mv, replay, stats):
         listed = sorted((r[3], r[4]) for r in rows)
         must, may = [], []
         for b in st["pre"]:
-            d = int(b["reason"][9:-1]) if b["reason"].startswith("AdminBan(") else BAN_TIME
+            d = int(b["reason"][9:-1]) if b["reason"].startswith("AdminBan(") else topo.ban_time
             if d - (now1 - b["ts"]) > 0:
                 must.append((b["host"], b["reason"]))
             if d - (now0 - b["ts"]) > 0:
@@ -805,7 +823,7 @@ def replay(run, path):
     if not ok:
         print("harness does not build"); return 2
     tp = r["topology"]
-    topo = Topo(tp["shards"], lb=tp["lb"], hc=tp["healthcheck"], default_role=tp.get("default_role", "any"), pool_size=tp.get("pool_size", 2))
+    topo = Topo(tp["shards"], lb=tp["lb"], hc=tp["healthcheck"], default_role=tp.get("default_role", "any"), pool_size=tp.get("pool_size", 2), ban_time=tp.get("ban_time", 60))
     hl = [dict(x) for x in r["schedule"]]
     stats = new_stats()
     n0 = len(run.violations)
